@@ -67,8 +67,8 @@ Definition conserved : list (particle R -> R) :=
   [ (fun p => pm p); (fun p => pm p * pvx p); (fun p => pm p * pvy p); (fun p => pm p * pvz p);
     (fun p => pm p * px p); (fun p => pm p * py p); (fun p => pm p * pz p) ].
 
-Theorem merge_total (flag : particle R -> particle R) t cb ps p1 p2 a b keep :
-  zth ps p1 = Some a -> zth ps p2 = Some b -> p1 <> p2 -> plc a <> t -> plc b <> t -> pm a + pm b <> 0 ->
+Theorem merge_total_gen (flag : particle R -> particle R) t cb ps p1 p2 a b keep :
+  zth ps p1 = Some a -> zth ps p2 = Some b -> p1 <> p2 -> plc a <> t -> plc b <> t -> mass_ok a b ->
   exists ps' ps'',
     fst (merge RNum t cb ps p1 p2) = ps' /\
     remove_particle_na flag false keep ps' (gone_ix p1 p2) = (ps'', true) /\
@@ -76,7 +76,7 @@ Theorem merge_total (flag : particle R -> particle R) t cb ps p1 p2 a b keep :
     Forall (fun f => tot f ps'' = tot f ps) conserved.
 Proof.
   intros Z1 Z2 Hne La Lb Hm.
-  destruct (merge_conserves_thm t cb ps p1 p2 a b Z1 Z2 La Lb Hm) as (q & Em & Mq & Pq & Xq & _).
+  destruct (merge_conserves_gen t cb ps p1 p2 a b Z1 Z2 La Lb Hm) as (q & Em & Mq & Pq & Xq & _).
   rewrite Em. cbn [fst].
   set (i := keep_ix p1 p2) in *. set (j := gone_ix p1 p2).
   (* the survivor slot holds pi, the other slot holds pj *)
@@ -103,9 +103,18 @@ Proof.
     unfold conserved. repeat constructor; rewrite T; lra.
 Qed.
 
-(* the same for the model's reb_simulation_remove_particle, for every value of N_active *)
-Theorem merge_total_model (flag : particle R -> particle R) t cb ps p1 p2 a b keep nact :
+Theorem merge_total (flag : particle R -> particle R) t cb ps p1 p2 a b keep :
   zth ps p1 = Some a -> zth ps p2 = Some b -> p1 <> p2 -> plc a <> t -> plc b <> t -> pm a + pm b <> 0 ->
+  exists ps' ps'',
+    fst (merge RNum t cb ps p1 p2) = ps' /\
+    remove_particle_na flag false keep ps' (gone_ix p1 p2) = (ps'', true) /\
+    S (length ps'') = length ps /\
+    Forall (fun f => tot f ps'' = tot f ps) conserved.
+Proof. intros Z1 Z2 Hne La Lb Hm. apply (merge_total_gen flag t cb ps p1 p2 a b keep); auto. left. exact Hm. Qed.
+
+(* the same for the model's reb_simulation_remove_particle, for every value of N_active; mass sum non-zero or both massless *)
+Theorem merge_total_model_gen (flag : particle R -> particle R) t cb ps p1 p2 a b keep nact :
+  zth ps p1 = Some a -> zth ps p2 = Some b -> p1 <> p2 -> plc a <> t -> plc b <> t -> mass_ok a b ->
   exists ps' ps'' nact',
     fst (merge RNum t cb ps p1 p2) = ps' /\
     remove_particle flag false keep nact ps' (gone_ix p1 p2) = (ps'', nact', true) /\
@@ -113,9 +122,19 @@ Theorem merge_total_model (flag : particle R -> particle R) t cb ps p1 p2 a b ke
     Forall (fun f => tot f ps'' = tot f ps) conserved.
 Proof.
   intros Z1 Z2 Hne La Lb Hm.
-  destruct (merge_total flag t cb ps p1 p2 a b keep Z1 Z2 Hne La Lb Hm) as (ps' & ps'' & E1 & E2 & E3 & E4).
+  destruct (merge_total_gen flag t cb ps p1 p2 a b keep Z1 Z2 Hne La Lb Hm) as (ps' & ps'' & E1 & E2 & E3 & E4).
   destruct (remove_particle flag false keep nact ps' (gone_ix p1 p2)) as [[x n'] c] eqn:E.
   pose proof (remove_particle_is_na flag _ _ _ _ _ _ _ _ E) as E'.
   rewrite E2 in E'. injection E' as <- <-.
   exists ps', ps'', n'. auto.
 Qed.
+
+(* statement cited by C04 (unchanged) *)
+Theorem merge_total_model (flag : particle R -> particle R) t cb ps p1 p2 a b keep nact :
+  zth ps p1 = Some a -> zth ps p2 = Some b -> p1 <> p2 -> plc a <> t -> plc b <> t -> pm a + pm b <> 0 ->
+  exists ps' ps'' nact',
+    fst (merge RNum t cb ps p1 p2) = ps' /\
+    remove_particle flag false keep nact ps' (gone_ix p1 p2) = (ps'', nact', true) /\
+    S (length ps'') = length ps /\
+    Forall (fun f => tot f ps'' = tot f ps) conserved.
+Proof. intros Z1 Z2 Hne La Lb Hm. apply (merge_total_model_gen flag t cb ps p1 p2 a b keep nact); auto. left. exact Hm. Qed.
